@@ -15,8 +15,9 @@ FIRST = {  # what the quick checks reported when the change arrived (before the 
  "S144": "C11", "S145": "-", "S146": "C11", "S147": "-", "S148": "C07", "S149": "C08", "S150": "C08", "S151": "C09",
  "S152": "C16", "S153": "-", "S154": "C16", "S155": "C13", "S156": "C12", "S157": "-", "S158": "-", "S159": "C14",
  "S160": "- (**)", "S161": "-", "S162": "-", "S163": "-", "S164": "C03", "S165": "C18", "S166": "C17", "S167": "C04",
+ "S168": "C03", "S169": "C04", "S170": "C03", "S171": "C12", "S172": "C12", "S173": "C13", "S174": "C15, C01", "S175": "C01", "S176": "C17", "S177": "C14", "S178": "C18", "S179": "C18",
  "S81": "-", "S82": "-", "S83": "-", "S84": "C06", "S85": "-", "S86": "C18", "S87": "C02", "S88": "-", "S89": "C02, C01", "S90": "C18", "S91": "C18", "S92": "C17", "S93": "C01"}
-for rnd in (2, 3, 4, 5, 6, 7):
+for rnd in (2, 3, 4, 5, 6, 7, 8):
     print("\n| id | breaks | site | caught at first run by | caught now by |\n|---|---|---|---|---|")
     for p in sorted(glob.glob(os.path.join(V, "seeded", "S*", "meta.json")), key=lambda q: int(re.search(r"S(\d+)", q).group(1))):
         m = json.load(open(p))
